@@ -265,7 +265,7 @@ func ntSignature(s ntScript) string {
 }
 
 func checkNonTermination(col *evid.Collector, offset int) {
-	hardKill := 10 * time.Second
+	hardKill := 8 * time.Second
 	if evid.Thorough() {
 		hardKill = 30 * time.Second
 	}
@@ -300,7 +300,7 @@ func judgeNonTerm(col *evid.Collector, s ntScript, hardKill time.Duration) {
 	}
 	// the only wall-clock oracle of the suite: an overrun must reproduce (a
 	// loaded machine can delay one child, not three in a row)
-	for try := 0; o.Overran && try < 2; try++ {
+	for try := 0; o.Overran && try < overrunRetries(); try++ {
 		col.Inc("nonterm_overrun_retries")
 		o2 := runInChild(childJob{Script: s.Script, TimeoutS: hookTimeoutS, NeedRepo: s.NeedRepo}, hardKill)
 		if o2.ChildFail != "" && !o2.Overran {
@@ -428,4 +428,11 @@ func judgeExit(col *evid.Collector, c exitCase) {
 	case c.Want0 && failed:
 		col.Violation("C20:zero-result-treated-as-failure", fmt.Sprintf("script %q returns 0 but RunScript gives code %d err %v", c.Script, code, rerr), replayCase{Kind: "exit", Exit: &c})
 	}
+}
+
+func overrunRetries() int {
+	if evid.Thorough() {
+		return 2
+	}
+	return 1
 }
